@@ -64,8 +64,10 @@ func createStructDesc(rv reflect.Value) (*structDesc, error) {
 	if sd := sds.Get(abiType); sd != nil {
 		return sd, nil
 	}
+	prefetchAdded = prefetchAdded[:0]
 	sd, err := newStructDescAndPrefetch(rt)
 	if err != nil {
+		dropFailedPrefetch()
 		return nil, err
 	}
 	sds.Set(abiType, sd)
@@ -77,6 +79,28 @@ func createStructDesc(rv reflect.Value) (*structDesc, error) {
 
 var prefetchStructDescCache = map[reflect.Type]*structDesc{}
 
+// prefetchAdded lists the types added to prefetchStructDescCache by the registration in progress (under sdsmu).
+var prefetchAdded []reflect.Type
+
+// dropFailedPrefetch forgets every descriptor built during a failed registration.
+// With mutually recursive types a descriptor can complete while it refers to the one that fails later,
+// it must not survive as a valid entry, neither in the cache nor as Sd of a cached tType.
+func dropFailedPrefetch() {
+	dropped := make(map[*structDesc]bool, len(prefetchAdded))
+	for _, t := range prefetchAdded {
+		if sd := prefetchStructDescCache[t]; sd != nil {
+			dropped[sd] = true
+			delete(prefetchStructDescCache, t)
+		}
+	}
+	for _, tt := range ttypes {
+		if tt.Sd != nil && dropped[tt.Sd] {
+			tt.Sd = nil
+		}
+	}
+	prefetchAdded = prefetchAdded[:0]
+}
+
 func newStructDescAndPrefetch(t reflect.Type) (*structDesc, error) {
 	if sd := prefetchStructDescCache[t]; sd != nil {
 		return sd, nil
@@ -86,9 +110,9 @@ func newStructDescAndPrefetch(t reflect.Type) (*structDesc, error) {
 		return nil, err
 	}
 	prefetchStructDescCache[t] = sd
+	prefetchAdded = append(prefetchAdded, t)
 	if err := prefetchSubStructDesc(sd); err != nil {
-		delete(prefetchStructDescCache, t)
-		return nil, err
+		return nil, err // createStructDesc drops everything this attempt added
 	}
 	return sd, nil
 }
